@@ -352,21 +352,25 @@ func runSched(c *core.Case, st *core.CaseStats, seed int64, sched [][]int) {
 		}
 	}
 	if aligned {
-		mask := []rune{'*', 'é', '中'}[variant%3]
-		var got string
-		if guard("ReplaceWithMask", func() { got = t.ReplaceWithMask(in, mask) }) {
-			var w strings.Builder
-			pos := 0
-			for _, r := range runs {
-				w.WriteString(in[pos:r.s])
-				for i := 0; i < utf8.RuneCountInString(in[r.s:r.e]); i++ {
-					w.WriteRune(mask)
+		// two masks per case: one of three everyday masks, and one from a pool that sits on every boundary of the
+		// UTF-8 encoding (last / first rune of each width, U+0000, U+FFFD, the last code point)
+		masks := []rune{[]rune{'*', 'é', '中'}[variant%3], maskPool[(variant/3)%len(maskPool)]}
+		for _, mask := range masks {
+			var got string
+			if guard("ReplaceWithMask", func() { got = t.ReplaceWithMask(in, mask) }) {
+				var w strings.Builder
+				pos := 0
+				for _, r := range runs {
+					w.WriteString(in[pos:r.s])
+					for i := 0; i < utf8.RuneCountInString(in[r.s:r.e]); i++ {
+						w.WriteString(string(mask)) // the UTF-8 encoding of the mask rune, by the language's own conversion
+					}
+					pos = r.e
 				}
-				pos = r.e
-			}
-			w.WriteString(in[pos:])
-			if got != w.String() {
-				rep("ReplaceWithMask", "value", w.String(), got)
+				w.WriteString(in[pos:])
+				if got != w.String() {
+					rep("ReplaceWithMask", "value", map[string]interface{}{"mask": int(mask), "text": w.String()}, got)
+				}
 			}
 		}
 	} else {
@@ -407,6 +411,9 @@ func runSched(c *core.Case, st *core.CaseStats, seed int64, sched [][]int) {
 		}
 	}
 }
+
+// mask runes on the boundaries of the UTF-8 encoding lengths
+var maskPool = []rune{0x00, 0x7F, 0x80, 0x81, 0xFF, 0x7FF, 0x800, 0xD7FF, 0xE000, 0xFFFD, 0xFFFF, 0x10000, 0x10FFFF, '#'}
 
 func runs2(x []int) [][]int {
 	out := [][]int{}
